@@ -204,6 +204,18 @@ pub(crate) mod verif_noise {
     pub fn open_model(key: &[u8], nonce: u64, ad: &[u8], ct: &[u8]) -> Result<Vec<u8>, ChaPolyDecryptError> {
         unsafe {
             if ct.len() < 16 { return Err(ChaPolyDecryptError); }
+            if MODE == 0 {
+                // lockstep record: log what is presented, hand out a fresh unconstrained 32-byte plaintext
+                let i = AE_REC;
+                assert!(i < NAE && key.len() == 32 && ad.len() == 32 && ct.len() == 48, "[C06,C05] Noise X opens exactly two 48-byte values (s, payload) with AD = h");
+                let p: [u8; 32] = kani::any();
+                match i {
+                    0 => { AE_KEY[0].copy_from_slice(key); AE_NONCE[0] = nonce; AE_AD[0].copy_from_slice(ad); AE_CT[0].copy_from_slice(ct); AE_PT[0] = p; }
+                    _ => { AE_KEY[1].copy_from_slice(key); AE_NONCE[1] = nonce; AE_AD[1].copy_from_slice(ad); AE_CT[1].copy_from_slice(ct); AE_PT[1] = p; }
+                }
+                AE_REC += 1;
+                return Ok(p.to_vec());
+            }
             if MODE == 1 {
                 let i = AE_REP;
                 AE_REP += 1;
@@ -324,62 +336,72 @@ pub(crate) mod verif_noise {
     #[kani::unwind(6)]
     pub fn noise_write_lockstep_msg() { noise_write(3); }
 
-    /// C01(c) / C05(1) / C06(B): the reader, given a message built exactly as the Noise X pattern prescribes (the trace
-    /// noise_write_lockstep shows the writer produces), recomputes the same hashes/keys, presents the commuted DH pairs,
-    /// and returns (payload, sender static key, same handshake hash). The trace tables are filled by the harness
-    /// from the specification, with fresh unconstrained values for every primitive result.
+    /// C01(c) / C05(1) / C06(B): the reader's trace on ANY 128-byte message is exactly what the Noise X pattern prescribes
+    /// for a responder: same hash chain over (prologue, own static key, e, enc s, enc payload), es = DH(own static, e),
+    /// ss = DH(own static, decrypted sender key), both values opened under the es / ss key with nonce 0 and AD = h; it
+    /// returns the opened payload, reports the opened static key as sender, and the final h as handshake hash.
+    /// Together with noise_write_lockstep_* (same hash-chain inputs, commuted DH pairs, same keys/AD) this gives
+    /// read(write(k)) = (k, sender key, same hash) for every interpretation of the primitives.
+    fn noise_read(part: u8) {
+        let prologue: [u8; 4] = kani::any();
+        let (r_priv, r_pub): ([u8; 32], [u8; 32]) = (kani::any(), kani::any());
+        let msg: [u8; 128] = kani::any();
+        unsafe { MODE = 0; }
+        let mut hr = HandshakeState::init_x(
+            false, &prologue,
+            PrivateKey::try_from(&r_priv[..]).unwrap(), PublicKey::try_from(&r_pub[..]).unwrap(), None, None, None);
+        let rd = hr.read_message(&msg);
+        assert!(rd.is_ok(), "[C01,C06] when both DH results are non-zero and both values open, the responder accepts");
+        let rd = rd.unwrap();
+        unsafe {
+            assert!(SHA_REC == 5 && HK_REC == 3 && DH_REC == 2 && AE_REC == 2, "[C06,C05] responder: five hashes, three HKDF, two DH, two AEAD");
+            let z = h0();
+            if part == 0 {
+                assert!(SHA_SHAPE_OK, "[C06,C05] hash inputs have the lengths the pattern prescribes (36, 64, 64, 80, 80)");
+                assert!(cat_eq(0, &z, &prologue), "[C06,C05] h = SHA256(h0 || prologue)");
+                assert!(cat_eq(1, &SHA_OUT[0], &r_pub), "[C06,C05] pre-message <- s: the responder mixes ITS OWN static public key (only the addressed key computes the sender's h)");
+                assert!(cat_eq(2, &SHA_OUT[1], &msg[..32]), "[C06,C05] token e: MixHash(first 32 message bytes)");
+                assert!(cat_eq(3, &SHA_OUT[2], &msg[32..80]), "[C06,C05] MixHash(encrypted s = message bytes 32..80)");
+                assert!(cat_eq(4, &SHA_OUT[3], &msg[80..]), "[C06,C05] MixHash(encrypted payload = message bytes 80..128)");
+                assert!(eq(&rd.handshake_hash, &SHA_OUT[4], 32), "[C06,C01] handshake hash = final h");
+            } else if part == 1 {
+                assert!(eq(&DH_K[0], &r_priv, 32) && eq(&DH_U[0], &msg[..32], 32), "[C06,C05] token es: DH(own static private, e)");
+                assert!(eq(&HK_CK[0], &z, 32) && HK_IKMLEN[0] == 32 && eq(&HK_IKM[0], &DH_OUT[0], 32), "[C06,C05] MixKey(es): HKDF(ck = h0, DH result)");
+                assert!(eq(&DH_K[1], &r_priv, 32) && eq(&DH_U[1], &AE_PT[0], 32), "[C06,C05] token ss: DH(own static private, the sender key just decrypted) - a sender key whose private half was not used cannot produce this value");
+                assert!(eq(&HK_CK[1], &HK_O1[0], 32) && HK_IKMLEN[1] == 32 && eq(&HK_IKM[1], &DH_OUT[1], 32), "[C06,C05] MixKey(ss): HKDF(ck from es, DH result)");
+                assert!(eq(&HK_CK[2], &HK_O1[1], 32) && HK_IKMLEN[2] == 0, "[C06] Split(): HKDF(ck, empty)");
+            } else {
+                assert!(eq(&AE_KEY[0], &HK_O2[0], 32) && AE_NONCE[0] == 0 && eq(&AE_AD[0], &SHA_OUT[2], 32) && eq(&AE_CT[0], &msg[32..80], 48), "[C06,C05] token s: DecryptAndHash(message 32..80) under the es key, nonce 0, AD = h");
+                assert!(eq(&AE_KEY[1], &HK_O2[1], 32) && AE_NONCE[1] == 0 && eq(&AE_AD[1], &SHA_OUT[3], 32) && eq(&AE_CT[1], &msg[80..], 48), "[C06,C05] payload: DecryptAndHash(message 80..128) under the ss key, nonce reset to 0, AD = h");
+                assert!(rd.message.len() == 32 && eq(&rd.message, &AE_PT[1], 32), "[C01] the payload returned is what the second AEAD opened");
+                let pk = hr.get_pubkey();
+                assert!(pk.is_some() && eq(pk.as_ref().unwrap().as_bytes(), &AE_PT[0], 32), "[C01,C05] the sender reported is the static key the first AEAD opened (the one ss was computed with)");
+                core::mem::forget(pk);
+            }
+        }
+        core::mem::forget(hr); core::mem::forget(rd);
+    }
     #[kani::proof]
     #[kani::stub(crate::sha256, sha_model)]
     #[kani::stub(crate::hkdf_noise, hkdf_model)]
     #[kani::stub(crate::x25519, dh_model)]
     #[kani::stub(crate::chapoly_decrypt_noise, open_model)]
     #[kani::unwind(6)]
-    pub fn noise_read_lockstep() {
-        let prologue: [u8; 4] = kani::any();
-        let (s_pub, e_pub, r_priv, rs, payload): ([u8; 32], [u8; 32], [u8; 32], [u8; 32], [u8; 32]) =
-            (kani::any(), kani::any(), kani::any(), kani::any(), kani::any());
-        let z = h0();
-        unsafe {
-            // the specification's trace for an initiator with static public key s_pub, ephemeral e_pub, addressing rs
-            let h: [[u8; 32]; 5] = kani::any();
-            let (dh0, dh1, ck1, k1, ck2, k2, sp1, sp2): ([u8; 32], [u8; 32], [u8; 32], [u8; 32], [u8; 32], [u8; 32], [u8; 32], [u8; 32]) =
-                (kani::any(), kani::any(), kani::any(), kani::any(), kani::any(), kani::any(), kani::any(), kani::any());
-            let (c1, c2): ([u8; 48], [u8; 48]) = (kani::any(), kani::any());
-            SHA_OUT = h;
-            SHA_IN0[..32].copy_from_slice(&z); SHA_IN0[32..].copy_from_slice(&prologue);
-            SHA_IN1[..32].copy_from_slice(&h[0]); SHA_IN1[32..].copy_from_slice(&rs);
-            SHA_IN2[..32].copy_from_slice(&h[1]); SHA_IN2[32..].copy_from_slice(&e_pub);
-            SHA_IN3[..32].copy_from_slice(&h[2]); SHA_IN3[32..].copy_from_slice(&c1);
-            SHA_IN4[..32].copy_from_slice(&h[3]); SHA_IN4[32..].copy_from_slice(&c2);
-            SHA_REC = 5;
-            DH_OUT[0] = dh0; DH_OUT[1] = dh1; DH_REC = 2;
-            DH_REP_K[0] = r_priv; DH_REP_U[0] = e_pub;   // es = DH(recipient private, e)      = DH(e private, rs)
-            DH_REP_K[1] = r_priv; DH_REP_U[1] = s_pub;   // ss = DH(recipient private, s pub)  = DH(s private, rs)
-            HK_CK[0] = z; HK_IKM[0] = dh0; HK_IKMLEN[0] = 32; HK_O1[0] = ck1; HK_O2[0] = k1;
-            HK_CK[1] = ck1; HK_IKM[1] = dh1; HK_IKMLEN[1] = 32; HK_O1[1] = ck2; HK_O2[1] = k2;
-            HK_CK[2] = ck2; HK_IKMLEN[2] = 0; HK_O1[2] = sp1; HK_O2[2] = sp2;
-            HK_REC = 3;
-            AE_KEY[0] = k1; AE_NONCE[0] = 0; AE_AD[0] = h[2]; AE_PT[0] = s_pub; AE_CT[0] = c1;
-            AE_KEY[1] = k2; AE_NONCE[1] = 0; AE_AD[1] = h[3]; AE_PT[1] = payload; AE_CT[1] = c2;
-            AE_REC = 2;
-            MODE = 1;
-            let mut msg = [0u8; 128];
-            msg[..32].copy_from_slice(&e_pub); msg[32..80].copy_from_slice(&c1); msg[80..].copy_from_slice(&c2);
-            let mut hr = HandshakeState::init_x(
-                false, &prologue,
-                PrivateKey::try_from(&r_priv[..]).unwrap(), PublicKey::try_from(&rs[..]).unwrap(), None, None, None);
-            let rd = hr.read_message(&msg);
-            assert!(!DIVERGED, "[C06,C05,C01] the responder computes exactly the initiator's hashes and keys and the commuted DH pairs (es with its own static key and e; ss with its own static key and the decrypted sender key)");
-            assert!(SHA_REP == 5 && HK_REP == 3 && DH_REP == 2 && AE_REP == 2, "[C06,C05] responder: five hashes, three HKDF, two DH, two AEAD");
-            assert!(rd.is_ok(), "[C01,C06] the responder accepts a message built per the specification for its key");
-            let rd = rd.unwrap();
-            assert!(rd.message.len() == 32 && eq(&rd.message, &payload, 32), "[C01] the payload key comes back unchanged");
-            let pk = hr.get_pubkey();
-            assert!(pk.is_some() && eq(pk.as_ref().unwrap().as_bytes(), &s_pub, 32), "[C01,C05] the responder reports exactly the sender's static public key");
-            assert!(eq(&rd.handshake_hash, &h[4], 32), "[C01,C06] the responder derives the initiator's handshake hash");
-            core::mem::forget(hr); core::mem::forget(rd); core::mem::forget(pk);
-        }
-    }
+    pub fn noise_read_lockstep_hash() { noise_read(0); }
+    #[kani::proof]
+    #[kani::stub(crate::sha256, sha_model)]
+    #[kani::stub(crate::hkdf_noise, hkdf_model)]
+    #[kani::stub(crate::x25519, dh_model)]
+    #[kani::stub(crate::chapoly_decrypt_noise, open_model)]
+    #[kani::unwind(6)]
+    pub fn noise_read_lockstep_keys() { noise_read(1); }
+    #[kani::proof]
+    #[kani::stub(crate::sha256, sha_model)]
+    #[kani::stub(crate::hkdf_noise, hkdf_model)]
+    #[kani::stub(crate::x25519, dh_model)]
+    #[kani::stub(crate::chapoly_decrypt_noise, open_model)]
+    #[kani::unwind(6)]
+    pub fn noise_read_lockstep_open() { noise_read(2); }
 
     /// C05(3): a refused DH (all-zero shared secret) at es or ss aborts write_message with DhError.
     #[kani::proof]
